@@ -55,12 +55,14 @@ def caps_body(prof, five_level=False, rich=False):
     return bytes([0xB5, n + 1]) + recs
 
 
-def make_device(prof, five_level=False, rich=False, pages2=False):
+def make_device(prof, five_level=False, rich=False, pages2=False, variant=0):
     props = {}
     for pid in prof:
-        props[pid] = bytes([1, 0]) if pid == PIECO else bytes([INIT.get(pid, 0)])
+        props[pid] = (bytes([1, 0]) + (bytes([60, 40, 40, 40, 0]) if variant % 2 else b"")) if pid == PIECO else bytes([INIT.get(pid, 0)])
     extra = dict(energy=bytes([0xC1, 0x21, 0x01, 0x44, 0, 0, 0x12, 0x34, 0, 0, 0, 0, 0, 0, 0, 0x56, 0, 7, 0x89, 0]), humidity=bytes([0xC1, 0x21, 0x01, 0x45, 47, 0, 0, 0])) if rich else {}
     d = acdev.ACModel(caps_pages=caps_pages(prof, five_level, rich, pages2), props=props, **extra)
+    d.ieco_full = bool(variant % 2)                  # iECO reported as the full 7-byte record instead of number + switch
+    d.state["swing"] = [0, 15, 3, 12][(variant // 2) % 4]      # the louvers are swinging (both / one axis) or not: the swing MODE is a state-protocol setting
     d.strict = True
     return d
 
@@ -76,13 +78,13 @@ def observe(ac):
             "ud": int(ac.vertical_swing_angle), "clean": bool(ac.self_clean_active)}, sum(flags)
 
 
-def replay(hist, prof, *, five_level=False, mid_apply=False, rich=False, lost_state=False, pages2=False, lost_ack=False):
+def replay(hist, prof, *, five_level=False, mid_apply=False, rich=False, lost_state=False, pages2=False, lost_ack=False, variant=0):
     from msmart.device import AirConditioner as AC
     AX = AC
     vloop.install_clock()
     loop = vloop.new_loop()
     net = vloop.Net(loop)
-    dev = make_device(prof, five_level, rich, pages2)
+    dev = make_device(prof, five_level, rich, pages2, variant)
     if lost_ack:
         # the acknowledgement of every second property write (0xB0) is lost although the unit took the write: that apply() has still written the
         # changed properties exactly once, and a later apply() without a new change writes nothing
@@ -307,7 +309,7 @@ def judge(ctx, runs, canaries=True):
             at = int(clause.split(" @event ")[1])
             cl = clause.split(" @event ")[0]
             ctx.violation(f"{pname}: history {[(s['a'], s['v']) for s in r['hist'][:at]]}"[:300], cl,
-                          {"profile": pname, "five": r["five"], "mid_apply": r.get("mid", False), "rich": r.get("rich", False), "lost": r.get("lost", False), "pages2": r.get("pages2", False), "lost_ack": r.get("lost_ack", False), "hist": r["hist"], "clause": cl,
+                          {"profile": pname, "five": r["five"], "mid_apply": r.get("mid", False), "rich": r.get("rich", False), "lost": r.get("lost", False), "pages2": r.get("pages2", False), "lost_ack": r.get("lost_ack", False), "variant": r.get("variant", 0), "hist": r["hist"], "clause": cl,
                            "breeze_legacy_both": cl.startswith("breeze mode differs (refresh)") and pname == "LegacyBoth"})
 
 
@@ -346,8 +348,8 @@ def run(ctx: Ctx) -> int:
             lost = (k % 5 == 3) and not mid
             pages2 = (k % 3 == 1)
             lost_ack = (k % 7 == 4) and not mid and not lost and not any(st["a"] in ("away", "mild", "less", "selfclean") for st in h)     # (what the unit makes of a breeze / self-clean write is only known from its acknowledgement)
-            runs.append({"profile": pname, "five": five, "mid": mid, "rich": rich, "lost": lost, "pages2": pages2, "lost_ack": lost_ack, "hist": h,
-                         "events": replay(h, prof, five_level=five, mid_apply=mid, rich=rich, lost_state=lost, pages2=pages2, lost_ack=lost_ack)})
+            runs.append({"profile": pname, "five": five, "mid": mid, "rich": rich, "lost": lost, "pages2": pages2, "lost_ack": lost_ack, "variant": k % 8, "hist": h,
+                         "events": replay(h, prof, five_level=five, mid_apply=mid, rich=rich, lost_state=lost, pages2=pages2, lost_ack=lost_ack, variant=k % 8)})
             ctx.count_distinct((pname, five, tuple((s["a"], s["v"]) for s in h)))
     ctx.extra["tlc_generated_histories"] = ngen
     judge(ctx, runs)
@@ -370,7 +372,7 @@ def replay_cmd(ctx, path):
     prof = PROFILES[c["profile"]]
     runs = [{"profile": c["profile"], "five": c.get("five", False), "mid": c.get("mid_apply", False), "rich": c.get("rich", False), "lost": c.get("lost", False), "hist": c["hist"],
              "events": replay(c["hist"], prof, five_level=c.get("five", False), mid_apply=c.get("mid_apply", False), rich=c.get("rich", False), lost_state=c.get("lost", False),
-                               pages2=c.get("pages2", False), lost_ack=c.get("lost_ack", False))}]
+                               pages2=c.get("pages2", False), lost_ack=c.get("lost_ack", False), variant=c.get("variant", 0))}]
     judge(ctx, runs, canaries=False)
     return ctx.finish(rule="replay of one recorded history")
 
